@@ -367,7 +367,7 @@ func c14Docs(b string) []c14Doc {
 	for _, rsc := range []string{q(b + "/*"), q("arn:aws:s3:::"), q("arn:aws:s3:::/" + b), q(arn("other/*")), q(arn(b + "2/*")), q(arn(b + "x")), q(arn("*")), `""`, `[]`, ql(arn(b+"/*"), arn("other/*")), q("arn:aws:s3::" + b + "/*"), `1`} {
 		add("bad-resource", doc(st(`"Allow"`, `"u1"`, `"s3:GetObject"`, rsc)), false)
 	}
-	for _, rsc := range []string{q(arn(b + "/*")), ql(arn(b+"/*")), ql(arn(b), arn(b+"/*")), q(arn(b + "/dir/*")), q(arn(b + "/k?y"))} {
+	for _, rsc := range []string{q(arn(b + "/*")), ql(arn(b + "/*")), ql(arn(b), arn(b+"/*")), q(arn(b + "/dir/*")), q(arn(b + "/k?y"))} {
 		add("valid-resource-shape", doc(st(`"Allow"`, `"u1"`, `"s3:GetObject"`, rsc)), true)
 	}
 	// action / resource kind
